@@ -31,6 +31,12 @@ Check C01_account_snapshot : forall (l : list isnap) (e : estate) (i c : Z),
   estep e (EAcctSnapshot l) i = fold_left snapshot_step (reports_for i l) (e i) /\
   (~ In i (map is_inst l) -> estep e (EAcctSnapshot l) i = e i) /\
   lifecycle_seq c (pst (e i c)) (reports_for i l) (pst (estep e (EAcctSnapshot l) i c)).
+Check C01_open_report_keeps_tracked : forall (s : orders) (sn : osnap) (m : meta),
+  o_state sn = SA (Open m) -> rem (o_qty sn) m <> 0 ->
+  step s (Snap sn) (k_cid (o_key sn)) <> None.
+Check C01_overfilled_stays_tracked : forall (s : orders) (sn : osnap) (m : meta),
+  o_state sn = SA (Open m) -> m_filled m > o_qty sn ->
+  step s (Snap sn) (k_cid (o_key sn)) <> None.
 Check C01_oracle_sound : forall c : case, corr_b c = true -> prop_b c = true.
 
 (* the definitions the statements rest on, pinned by evaluation *)
@@ -64,3 +70,10 @@ Check eq_refl : allowed (Some (Open (mkM 5 2 0))) (ASnap 10 (SA (Open (mkM 6 1 1
                 = [Some (Open (mkM 5 2 0)); None].
 Check eq_refl : allowed (Some (CIF (Some (mkM 5 2 0)))) (ACancelResp false) = [Some (Open (mkM 5 2 0))].
 Check eq_refl : ts (pin_s (CIF (Some (mkM 5 2 0)))) 1 = Some 2.
+(* over-filled: remaining = quantity - filled is negative, not zero: the order stays tracked *)
+Check eq_refl : rem 10 (mkM 6 3 11) = -1.
+Check eq_refl : step (pin_s (Open (mkM 5 2 0))) (pin_snap 10 (SA (Open (mkM 6 3 11)))) 1
+                = Some (pin_o (Open (mkM 6 3 11))).
+Check eq_refl : step empty (pin_snap 10 (SA (Open (mkM 6 3 1000)))) 1
+                = Some (mkO pin_k Sell 101 10 Market IOC (Open (mkM 6 3 1000))).
+Check eq_refl : allowed (Some (Open (mkM 5 2 0))) (ASnap 10 (SA (Open (mkM 6 3 11)))) = [Some (Open (mkM 6 3 11))].
